@@ -180,7 +180,8 @@ class SimpleTypeChecker(walkers.DagWalker):
     def walk_bv_rotate(self, formula: FNode, args: List[PySMTType], **kwargs) -> Optional[PySMTType]:
         #pylint: disable=unused-argument
         target_width = formula.bv_width()
-        if target_width < formula.bv_rotation_step() or target_width < 0:
+        if target_width < formula.bv_rotation_step() or target_width < 0 or \
+           formula.bv_rotation_step() < 0:
             return None
         if target_width != cast(types._BVType, args[0]).width:
             return None
@@ -203,6 +204,9 @@ class SimpleTypeChecker(walkers.DagWalker):
                                  % str(formula))
         elif args[0].is_bv_type():
             return self.walk_bv_to_bool(formula, args)
+        elif args[0].is_function_type():
+            # Function symbols are not terms
+            return None
         return self.walk_type_to_type(formula, args, args[0], BOOL)
 
     @walkers.handles(op.LE, op.LT)
@@ -335,6 +339,9 @@ class SimpleTypeChecker(walkers.DagWalker):
 
     def walk_pow(self, formula: FNode, args: List[PySMTType], **kwargs) -> Optional[PySMTType]:
         if args[0] != args[1]:
+            return None
+        if not (args[0].is_real_type() or args[0].is_int_type()):
+            # Only arithmetic terms can be raised to a power
             return None
         return REAL
 
